@@ -1,10 +1,16 @@
 package props
 
 import (
+	"bytes"
+	"encoding/json"
 	"fmt"
+	"io"
 	"os"
+	"os/exec"
 	"path/filepath"
+	"regexp"
 	"runtime"
+	"sort"
 	"strings"
 	"sync"
 	"time"
@@ -44,11 +50,19 @@ func RunC12(tier string, replay string) int {
 	r := evid.New("C12", tier)
 	r.Rule = "family F = base document + 9 feature slots (query/path/header/formData/body parameter shapes, shared path-level parameters, response shapes, definition graphs incl. cycles, metadata), every member with <= k features enumerated by deviation-bounded DFS; identity: every member x 5 re-serialisations through diff.Compare and DiffCommand.Execute(txt,json,-b); totality: every ordered pair of members through diff.Compare. distinct = distinct (kind, A, B/rho); non-trivial = A != base (identity) or A != B (totality)"
 	r.Assume = []string{"go-openapi/loads, spec, validate are trusted to load and validate documents", "panics are observed by recover(); non-termination by a 120 s per-case guard (typical case < 1 ms)"}
-	dir := ScratchRoot("C12")
-	defer os.RemoveAll(dir)
+	dir := os.Getenv("VERIF_C12_DIR")
+	if dir == "" {
+		dir = ScratchRoot("C12")
+		defer os.RemoveAll(dir)
+	}
 
 	if replay != "" {
 		return replayC12(r, dir, replay)
+	}
+	if os.Getenv("VERIF_C12_CHILD") == "" {
+		// parent: the enumeration runs in a child process, because a fatal runtime error (stack overflow)
+		// cannot be recovered in-process
+		return c12Parent(tier)
 	}
 
 	kIdent, kPairs := 2, 1
@@ -90,6 +104,19 @@ func RunC12(tier string, replay string) int {
 		os.Exit(r.Finish())
 	})
 	defer wd.close()
+	wd.journal = os.Getenv("VERIF_C12_JOURNAL")
+	wd.only = os.Getenv("VERIF_C12_ONLY")
+	wd.skip = map[string]bool{}
+	var fatals []string
+	_ = json.Unmarshal([]byte(os.Getenv("VERIF_C12_FATALS")), &fatals)
+	for _, f := range fatals {
+		wd.skip[f] = true
+		if strings.HasPrefix(f, "feature ") {
+			wd.skipTokens = append(wd.skipTokens, strings.Fields(f)[1])
+		}
+		r.Violate(evid.Violation{Signature: "fatal-error | " + fatalClass(f), What: "diff.Compare kills the process (fatal error: stack overflow / unrecoverable runtime error) on: " + f, Case: f})
+		r.CaseKeyed("fatal|"+f, map[string]string{"kind": "fatal", "case": f}, true, "fatal-error")
+	}
 
 	// ---------- identity (in-process Compare on all re-serialisations)
 	rhos := []string{"same", "yaml", "revkeys", "revparams", "revenums"}
@@ -100,7 +127,9 @@ func RunC12(tier string, replay string) int {
 			return
 		}
 		for _, rho := range rhos {
-			wd.enter(w, "identity "+f.Name+" "+rho)
+			if !wd.enter(w, "identity "+f.Name+" "+rho) {
+				continue
+			}
 			c12Identity(r, dir, f, rho, w, &fileMu)
 			wd.leave(w)
 		}
@@ -113,6 +142,9 @@ func RunC12(tier string, replay string) int {
 			continue
 		}
 		if tier != "thorough" && len(f.Feat) > 1 {
+			continue
+		}
+		if !wd.enter(900, "identity-cmd "+f.Name+" same") {
 			continue
 		}
 		p := filepath.Join(dir, "cmd-a.json")
@@ -142,6 +174,7 @@ func RunC12(tier string, replay string) int {
 			}
 			r.CaseKeyed("idcmd|"+f.Name+"|"+cs.Rho, map[string]string{"kind": "identity-cmd", "a": f.Name, "mode": cs.Rho}, len(f.Feat) > 0, out)
 		}
+		wd.leave(900)
 	}
 
 	// ---------- totality on ordered pairs
@@ -151,7 +184,9 @@ func RunC12(tier string, replay string) int {
 		if !validName[a.Name] || !validName[b.Name] {
 			return
 		}
-		wd.enter(w, "totality "+a.Name+" -> "+b.Name)
+		if !wd.enter(w, "totality "+a.Name+" -> "+b.Name) {
+			return
+		}
 		res := safeCompare(a.Doc, b.Doc)
 		wd.leave(w)
 		out := fmt.Sprintf("diffs>0:%v", len(res.Diffs) > 0)
@@ -263,4 +298,115 @@ func replayC12(r *evid.Run, dir, path string) int {
 		}
 	}
 	return r.Finish()
+}
+
+
+// fatalClass: "identity <features> <rho>" / "totality <A> -> <B>" with variant numbers kept.
+func fatalClass(what string) string { return what }
+
+// c12Parent runs the enumeration in a child process. When the child dies of a fatal runtime error the
+// cases the workers were in are re-run alone; the confirmed ones become violations and the enumeration
+// is restarted without them.
+func c12Parent(tier string) int {
+	jdir := ScratchRoot("C12j")
+	cdir := ScratchRoot("C12c")
+	defer os.RemoveAll(cdir)
+	var err error
+	if err != nil {
+		fmt.Fprintln(os.Stderr, "HARNESS:", err)
+		return 2
+	}
+	defer os.RemoveAll(jdir)
+	var fatals []string
+	run := func(only string, out io.Writer) (int, string) {
+		cmd := exec.Command(os.Args[0], os.Args[1:]...)
+		fj, _ := json.Marshal(fatals)
+		cmd.Env = append(os.Environ(), "VERIF_C12_CHILD=1", "VERIF_C12_DIR="+cdir, "VERIF_C12_JOURNAL="+jdir, "VERIF_C12_FATALS="+string(fj), "VERIF_C12_ONLY="+only)
+		var stderr bytes.Buffer
+		cmd.Stdout = out
+		cmd.Stderr = &stderr
+		err := cmd.Run()
+		code := 0
+		if ee, ok := err.(*exec.ExitError); ok {
+			code = ee.ExitCode()
+		} else if err != nil {
+			code = 2
+		}
+		return code, stderr.String()
+	}
+	for round := 0; round < 12; round++ {
+		var out bytes.Buffer
+		code, stderr := run("", &out)
+		if code == 0 || code == 1 {
+			_, _ = os.Stdout.Write(out.Bytes())
+			_, _ = os.Stderr.WriteString(stderr)
+			return code
+		}
+		if !strings.Contains(stderr, "fatal error") && !strings.Contains(stderr, "goroutine stack exceeds") {
+			_, _ = os.Stdout.Write(out.Bytes())
+			_, _ = os.Stderr.WriteString(trunc(stderr, 4000))
+			return code
+		}
+		// suspects: what every worker was doing
+		ents, _ := os.ReadDir(jdir)
+		suspects := map[string]bool{}
+		for _, e := range ents {
+			b, _ := os.ReadFile(filepath.Join(jdir, e.Name()))
+			if len(b) > 0 {
+				suspects[string(b)] = true
+			}
+			_ = os.Remove(filepath.Join(jdir, e.Name()))
+		}
+		confirmed := 0
+		isFatal := func(c int, se string) bool {
+			return c != 0 && c != 1 && (strings.Contains(se, "fatal error") || strings.Contains(se, "goroutine stack exceeds"))
+		}
+		have := map[string]bool{}
+		for _, f := range fatals {
+			have[f] = true
+		}
+		for _, sname := range sortedBoolKeys(suspects) {
+			c, se := run(sname, io.Discard)
+			if !isFatal(c, se) {
+				continue
+			}
+			// is one feature of the case enough? then every case with that feature is skipped at once
+			byFeature := false
+			for _, tok := range rxFeature.FindAllString(sname, -1) {
+				key := "feature " + tok + " (already diff of the member with itself is fatal)"
+				if have[key] {
+					byFeature = true
+					continue
+				}
+				if c2, se2 := run("identity "+tok+" same", io.Discard); isFatal(c2, se2) {
+					fatals = append(fatals, key)
+					have[key] = true
+					byFeature = true
+					confirmed++
+				}
+			}
+			if !byFeature && !have[sname] {
+				fatals = append(fatals, sname)
+				have[sname] = true
+				confirmed++
+			}
+		}
+		if confirmed == 0 {
+			fmt.Fprintln(os.Stderr, "HARNESS: the enumeration process died of a fatal error but no single case reproduces it:", trunc(stderr, 1500))
+			return 2
+		}
+	}
+	fmt.Fprintln(os.Stderr, "HARNESS: too many fatal cases")
+	return 2
+}
+
+var rxFeature = regexp.MustCompile(`[a-z]+=\d+`)
+
+func sortedBoolKeys(m map[string]bool) []string {
+	var out []string
+	for k := range m {
+		out = append(out, k)
+	}
+	sort.Strings(out)
+	return out
 }
